@@ -254,8 +254,69 @@ def _task_order(args):
     return st, vios, None
 
 
+def entry_points(pgn, payload, fast):
+    """name -> callable(decoder): the same message through every way a decoder can be handed it"""
+    ident = wire.can_id(3, pgn, 7, 255)
+    frames = wire.fast_frames(5, payload, None) if fast else [payload]
+
+    def framewise(one):
+        def run_(d):
+            last = None
+            for fr in frames:
+                last = one(d, fr)
+            return last
+        return run_
+    out = {"actisense": lambda d: d.decode_actisense_string(wire.actisense_line(3, 255, 7, pgn, payload)),
+           "plain_combined": lambda d: d.decode_basic_string(wire.plain_line(3, pgn, 7, 255, payload), already_combined=True)}
+    if fast or len(payload) <= 8:
+        out["ebyte"] = framewise(lambda d, fr: d.decode_tcp(wire.ebyte_packet(ident, fr)))
+        out["usb"] = framewise(lambda d, fr: d.decode_usb(wire.usb_packet(ident, fr)))
+        out["yd"] = framewise(lambda d, fr: d.decode_yacht_devices_string(wire.yd_line(ident, fr)))
+        out["plain_frames"] = framewise(lambda d, fr: d.decode_basic_string(wire.plain_line(3, pgn, 7, 255, fr)))
+    return out
+
+
+def _task_entry(args):
+    """the conversion must not depend on the entry point: single frames, fast-packet messages reassembled
+    from frames and pre-assembled messages, through every input format, on decoders with preferences"""
+    idxs, seed = args
+    db = refdb.db()
+    maps = [m for m in all_maps() if len(m) == 4 and all(v in ("c", "bar", "deg", "kts", "f", "psi") for v in m.values())]
+    vios = []
+    st = {"cases": 0, "nontrivial": 0, "fields": 0}
+    for di in idxs:
+        defn = db.defs[di]
+        if not any(f.pq in SI for f in defn.fields):
+            continue
+        for b in ("mid", "max"):
+            p, n = payloads.build(defn, payloads.base_assignment(defn, b))
+            if n > 223 or (not defn.fast and n > 8) or n == 0:
+                continue
+            payload = p.to_bytes(n, "little")
+            ref = dec_line(NMEA2000Decoder(), defn.pgn, p, n)
+            ddef = defn
+            if not isinstance(ref, tuple) and ref is not None and ref.id != defn.id:
+                ddef = db.by_id.get((ref.PGN, ref.id), defn)
+            for m in maps:
+                for name, fn in entry_points(defn.pgn, payload, defn.fast).items():
+                    try:
+                        got = fn(NMEA2000Decoder(preferred_units=m))
+                    except Exception as ex:  # noqa: BLE001
+                        got = ("error", type(ex).__name__)
+                    st["cases"] += 1
+                    st["nontrivial"] += 1
+                    for kind, facts, detail in compare(ddef, ref, got, m):
+                        if len(vios) < 40:
+                            vios.append({"kind": kind, "facts": dict(facts, definition=defn.id, entry=name, mechanism="depends_on_entry_point"),
+                                         "signature": f"entry:{kind}:{defn.pgn}:{defn.id}:{name}",
+                                         "detail": f"[PGN {defn.pgn} {defn.id} payload={payload.hex()[:60]} through {name}{' (frame by frame)' if defn.fast and name not in ('actisense', 'plain_combined') else ''}, "
+                                                   f"prefs={ {k.name: v for k, v in m.items()} }] {detail}",
+                                         "case": {"pgn": defn.pgn, "definition": defn.id, "payload_hex": payload.hex(), "entry": name, "map_index": all_maps().index(m)}})
+    return st, vios, None
+
+
 def _dispatch(t):
-    return _task(t[1]) if t[0] == "fields" else _task_order(t[1])
+    return {"fields": _task, "order": _task_order, "entry": _task_entry}[t[0]](t[1])
 
 
 def run(ctx):
@@ -270,6 +331,10 @@ def run(ctx):
     multi = sorted(db.multi, key=lambda p: -len(db.multi[p]))
     for p in multi:
         tasks.append(("order", ([p], ctx.seed)))
+    conv = [d.idx for d in db.defs if any(f.pq in SI for f in d.fields)]
+    for j in range(16):
+        if conv[j::16]:
+            tasks.append(("entry", (conv[j::16], ctx.seed)))
     results = common.pmap(_dispatch, tasks)
     vios, samples = [], []
     tot = {"cases": 0, "nontrivial": 0, "fields": 0}
@@ -286,7 +351,7 @@ def run(ctx):
                 "range ends, mid and a seeded raw; maps = all 144 combinations over the four convertible quantities + case variants "
                 "+ maps naming non-convertible quantities; non-trivial = non-empty map on a definition with a convertible field",
         "samples": samples, "fields_with_physical_quantity": tot["fields"], "preference_maps": len(all_maps()),
-        "bound_completed": ("quantity fields off base one at a time from 4 bases and two at a time from base mid" if ctx.thorough else "one field off base at a time") + "; all preference maps; every ordered pair of definitions sharing a PGN on one decoder", "exhaustive": True,
+        "bound_completed": ("quantity fields off base one at a time from 4 bases and two at a time from base mid" if ctx.thorough else "one field off base at a time") + "; all preference maps; every ordered pair of definitions sharing a PGN on one decoder; bases mid and max of every definition with a convertible field through 6 entry points (fast-packet messages frame by frame) x 8 full maps", "exhaustive": True,
     }
     return {"coverage": cov, "violations": vios,
             "assumptions": ["a field is convertible when its database unit is the SI unit of its quantity (K, Pa, rad, m/s)",
@@ -300,6 +365,9 @@ def replay(ctx, rep):
         st, v, _ = _task_order(([c["pgn"]], 0))
         return [x for x in v if x["case"]["definition"] == c["definition"] and x["case"]["after"] == c["after"]][:1]
     defn = db.by_id[(c["pgn"], c["definition"])]
+    if "entry" in c:
+        st, v, _ = _task_entry(([defn.idx], 0))
+        return [x for x in v if x["case"]["entry"] == c["entry"] and x["case"]["payload_hex"] == c["payload_hex"]][:1]
     data = bytes.fromhex(c["payload_hex"])
     p = int.from_bytes(data, "little")
     m = all_maps()[c["map_index"]]
